@@ -337,7 +337,7 @@ class FakeGpsd(threading.Thread):
     silent, sends a line that is no JSON, or hangs up. Shared by all sessions of a run; if the
     port is taken (another run is using it) it simply is not started."""
 
-    def __init__(self, lat=52.1, lon=4.1, ip="127.0.0.1", modes=("periodic", "once", "garbage", "hangup"), drift=0.0005):
+    def __init__(self, lat=52.1, lon=4.1, ip="127.0.0.1", modes=("periodic", "once", "garbage", "hangup", "no_fix", "huge_line", "midline_close", "odd_json", "bytewise"), drift=0.0005):
         super().__init__(daemon=True)
         self.lat, self.lon = lat, lon   # may be changed while running: the next report carries the new fix
         self.ip, self.modes, self.drift = ip, modes, drift
@@ -389,6 +389,32 @@ class FakeGpsd(threading.Thread):
                 time.sleep(90)  # one report, then silence
             elif mode == "garbage":
                 c.sendall(b"this is not json\r\n" + tpv(1))
+                time.sleep(90)
+            elif mode == "no_fix":
+                # reports without a position: no fix yet (mode 0/1), a TPV without lat/lon, other classes
+                for i in range(40):
+                    c.sendall(b'{"class":"TPV","mode":%d}\r\n' % (i % 2) + b'{"class":"SKY","satellites":[]}\r\n' + b'{"class":"TPV","mode":2,"lat":null,"lon":null}\r\n' + b'{"class":"TPV","mode":3,"lat":52.0}\r\n')
+                    time.sleep(0.2)
+                c.sendall(tpv(3))
+                time.sleep(90)
+            elif mode == "huge_line":
+                c.sendall(b'{"class":"TPV","mode":3,"lat":52.0,"lon":4.0,"pad":"' + b"x" * 2_000_000 + b'"}\r\n' + tpv(4))
+                c.sendall(b"y" * 1_000_000)  # and a line that never ends
+                time.sleep(90)
+            elif mode == "midline_close":
+                c.sendall(tpv(5) + b'{"class":"TPV","mode":3,"la')
+                time.sleep(0.3)
+            elif mode == "odd_json":
+                for junk in (b'[]\r\n', b'null\r\n', b'{"class":"TPV","mode":"three","lat":"north","lon":[1,2]}\r\n', b'{"class":"TPV","mode":3,"lat":1e999,"lon":-1e999}\r\n',
+                             b'{"class":"TPV","mode":3,"lat":91.5,"lon":540.0}\r\n', b'{"class":"TPV","mode":3,"lat":NaN,"lon":NaN}\r\n', b'\xff\xfe\x00\r\n', b'\r\n', b'{"class":"ERROR","message":"x"}\r\n',
+                             b'{"class":"TPV","mode":3,"lat":52.0,"lon":4.0,"lat":53.0}\r\n', b'{' * 5000 + b'\r\n'):
+                    c.sendall(junk)
+                    time.sleep(0.1)
+                time.sleep(90)
+            elif mode == "bytewise":
+                for b_ in tpv(6) * 3:
+                    c.sendall(bytes([b_]))
+                    time.sleep(0.01)
                 time.sleep(90)
             else:
                 c.sendall(tpv(2))
